@@ -76,7 +76,8 @@ class Alignment:
             self.alignment_block_length,
             self.mapping_quality,
         )
-        self.tags["cg:Z:"] = self.cigar
+        if self.cigar or "cg:Z:" in self.tags:
+            self.tags["cg:Z:"] = self.cigar
         for k in self.tags.keys():
             line += "\t%s%s" % (k, self.tags[k])
         return line
@@ -159,20 +160,23 @@ class GAF:
 
         # Check if there are additional tags
         tags = {}
-        for k in fields:
-            if re.match("[A-Za-z][A-Za-z0-9]:[AifZHB]:[A-Za-z0-9]+", k):
-                pattern = re.findall(r"([A-Za-z][A-Za-z0-9]:[AifZHB]:)[A-Za-z0-9]+", k)[0]
-                if pattern == "cg:Z:":
-                    val = re.findall(r"[A-Za-z][A-Za-z0-9]:[AifZHB]:([A-Za-z0-9=]+)", k)[0]
-                    cigar = val
+        for k in fields[12:]:
+            match = re.match(r"([A-Za-z][A-Za-z0-9]:[AifZHB]:)(.*)$", k)
+            if not match:
+                continue
+            pattern, val = match.groups()
+            if pattern == "ds:Z:":
+                # the ds tag (minigraph >= v0.21) is not supported and is ignored
+                continue
+            if pattern == "cg:Z:":
+                cigar = val
+                tags[pattern] = val
+            else:
+                if pattern not in tags:
                     tags[pattern] = val
-                else:
-                    val = re.findall(r"[A-Za-z][A-Za-z0-9]:[AifZHB]:([A-Za-z0-9.]+)", k)[0]
-                    if pattern not in tags:
-                        tags[pattern] = val
 
-                    if pattern == "tp:A:" and val not in ("P", "p"):
-                        is_primary = False
+                if pattern == "tp:A:" and val not in ("P", "p"):
+                    is_primary = False
 
         return Alignment(
             query_name,
